@@ -20,20 +20,20 @@ echo "WITH: $with"; echo "WITHOUT: $without"; echo "EXISTING: $existing"
 cp $out/patch.diff $dst/patch.diff; cp $wt/$demo $dst/$(basename $demo)
 # run the checks against the change
 /verif/tools_scratch.sh
-export VERIF_REPO=/tmp/seedrepo VERIF_EVIDENCE=/tmp/seed_evidence
-cd /tmp/seedrepo && git apply $dst/patch.diff || { echo "patch does not apply to /repo HEAD"; exit 1; }
+export VERIF_REPO=${SEEDREPO:-/tmp/seedrepo} VERIF_EVIDENCE=${SEEDREPO:-/tmp/seedrepo}_evidence
+cd ${SEEDREPO:-/tmp/seedrepo} && git apply $dst/patch.diff || { echo "patch does not apply to /repo HEAD"; exit 1; }
 res=""
 for c in $checks; do
   o=$(cd /verif && timeout 1500 ./check $c quick 2>/dev/null | grep -E "^VIOLATION|^OK |^INCONCLUSIVE|label=" | head -6 | tr '\n' ' ')
   res="$res [$c] $o"
 done
-git -C /tmp/seedrepo checkout -- .
+git -C ${SEEDREPO:-/tmp/seedrepo} checkout -- .
 echo "CHECKS: $res"
 python3 - "$id" "$with" "$without" "$existing" "$res" "$pkg" "$run" <<'PY'
 import json,sys
 id,with_,without,existing,res,pkg,run=sys.argv[1:8]
 m=json.load(open(f'/tmp/wt_out/{id}/meta.json'))
-meta={"property":id,"summary":m.get("summary"),"needs":m.get("needs"),"files_touched":m.get("files_touched"),
+meta={"property":id.rstrip("abcdefgh"),"seed_id":id,"summary":m.get("summary"),"needs":m.get("needs"),"files_touched":m.get("files_touched"),
  "demo":{"package":pkg,"run":run,"with_change":with_.strip(),"without_change":without.strip()},
  "existing_tests_with_change":existing.strip(),"checks_quick_against_change":res.strip(),
  "detected": "VIOLATION" in res}
